@@ -23,6 +23,8 @@ class Layout:
     def __init__(self):
         self.mods = {}       # dotted name -> {"pkg": bool, "stmts": [stmt], "defs": [names]}
         self.exports = []    # (package, name, source module)
+        self.ns = []         # PEP 420 namespace packages: directories WITHOUT __init__.py that hold modules; packages for Python, but no module (no graph node) of their own
+        self.tag = None      # systematic layouts: the import form they exercise
 
     def path(self, m):
         parts = m.split(".")
@@ -46,6 +48,24 @@ def gen_layout(rng, reuse_names=True):
             L.mods[sp] = {"pkg": True, "stmts": [], "defs": []}
             for bn in rng.sample(BASENAMES, rng.randint(1, 2)):
                 L.mods[sp + "." + bn] = {"pkg": False, "stmts": [], "defs": ["fn_%s_sub_%s" % (p, bn)]}
+    # PEP 420 namespace packages ("every package layout"): a directory without __init__.py, at top level or inside a regular package, holding modules and optionally
+    # a further directory that is itself a namespace package or a regular one; the same basenames are re-used once more
+    nsdirs = rng.sample(["ns", "plugins"], rng.randint(1, 2)) if rng.random() < 0.6 else []
+    if rng.random() < 0.3:
+        nsdirs.append(rng.choice(pkgs) + ".plug")
+    for q in nsdirs:
+        L.ns.append(q)
+        for bn in rng.sample(BASENAMES, rng.randint(1, 3)):
+            L.mods[q + "." + bn] = {"pkg": False, "stmts": [], "defs": ["fn_%s_%s" % (q.replace(".", "_"), bn)]}
+        r = rng.random()
+        if r < 0.5:
+            sq = q + ".extra"
+            if r < 0.2:
+                L.mods[sq] = {"pkg": True, "stmts": [], "defs": ["PKG_" + sq.replace(".", "_").upper()]}
+            else:
+                L.ns.append(sq)
+            for bn in rng.sample(BASENAMES, rng.randint(1, 2)):
+                L.mods[sq + "." + bn] = {"pkg": False, "stmts": [], "defs": ["fn_%s_%s" % (sq.replace(".", "_"), bn)]}
     # re-exports in package __init__ files
     for p in [m for m, d in L.mods.items() if d["pkg"]]:
         subs = [m for m in L.mods if m.startswith(p + ".") and m.count(".") == p.count(".") + 1 and not L.mods[m]["pkg"]]
@@ -97,7 +117,7 @@ def gen_layout(rng, reuse_names=True):
                         st = {"kind": "f", "level": 2, "module": "", "names": [t.split(".")[-1]]}
                     elif L.mods[t]["defs"]:
                         st = {"kind": "f", "level": 2, "module": t.split(".")[-1], "names": [rng.choice(L.mods[t]["defs"])]}
-            elif form == "rel_pkg_name" and pkg and not d["pkg"] and L.mods[pkg]["defs"]:
+            elif form == "rel_pkg_name" and pkg and not d["pkg"] and pkg in L.mods and L.mods[pkg]["defs"]:
                 st = {"kind": "f", "level": 1, "module": "", "names": [L.mods[pkg]["defs"][0]]}
             elif form == "bare_sibling" and pkg:
                 # script style: the sibling's bare name; Python (project root on sys.path) does NOT resolve it unless a top-level module has that name
@@ -115,6 +135,89 @@ def gen_layout(rng, reuse_names=True):
                 st["ws"] = rng.choice([None, None, None, "tab", "ff", "cont", "tab2"]) if st["kind"] == "f" else None
                 d["stmts"].append(st)
     return L
+
+
+NS_FORMS = ["import ns.mod", "import ns.mod as x", "from ns import mod", "from ns import mod, mod", "from ns.mod import f", "from ns.sub import mod", "from . import mod",
+            "from .. import mod", "from .mod import f", "from ..mod import f", "from . import sub-package", "from .sub import mod", "from pkg.nsdir import mod", "from . import nsdir-mod"]
+
+
+def ns_layouts():
+    """Every import form that can name a module of a PEP 420 namespace package, one form per layout, from every kind of importer (a top-level module, a module of a regular
+    package, a module of the namespace package, a module of a package nested in it), with the nested directory once a namespace package and once a regular package.
+    A regular package `core` with the same basenames is the control."""
+    out = []
+    for form in NS_FORMS:
+        for subreg in (False, True):
+            L = Layout()
+            L.tag = "%s / nested %s" % (form, "regular" if subreg else "namespace")
+
+            def mod(name, pkg=False):
+                L.mods[name] = {"pkg": pkg, "stmts": [], "defs": (["PKG_" + name.replace(".", "_").upper()] if pkg else ["fn_" + name.replace(".", "_")])}
+            mod("main")
+            mod("core", True)
+            mod("core.alpha")
+            mod("core.utils")
+            L.ns += ["plugins", "core.plug"]
+            for m in ("plugins.alpha", "plugins.beta", "plugins.utils", "core.plug.alpha", "core.plug.delta"):
+                mod(m)
+            if subreg:
+                mod("plugins.extra", True)
+            else:
+                L.ns.append("plugins.extra")
+            mod("plugins.extra.gamma")
+            mod("plugins.extra.utils")
+
+            def add(A, kind, level, module, names, alias=False):
+                L.mods[A]["stmts"].append({"kind": kind, "level": level, "module": module, "names": names, "alias": alias, "wrap": "top", "multi": None, "ws": None})
+            if form == "import ns.mod":
+                add("main", "p", 0, "plugins.alpha", [])
+                add("core.utils", "p", 0, "plugins.extra.gamma", [])
+                add("plugins.beta", "p", 0, "plugins.utils", [])
+            elif form == "import ns.mod as x":
+                add("main", "p", 0, "plugins.extra.utils", [], True)
+                add("plugins.extra.gamma", "p", 0, "plugins.alpha", [], True)
+            elif form == "from ns import mod":
+                add("main", "f", 0, "plugins", ["beta"])
+                add("core.utils", "f", 0, "plugins", ["utils"])
+                add("plugins.extra.gamma", "f", 0, "plugins", ["alpha"])
+            elif form == "from ns import mod, mod":
+                add("main", "f", 0, "plugins", ["alpha", "utils"])
+                add("plugins.beta", "f", 0, "plugins", ["utils", "alpha"])
+            elif form == "from ns.mod import f":
+                add("main", "f", 0, "plugins.alpha", ["fn_plugins_alpha"])
+                add("core.alpha", "f", 0, "plugins.extra.gamma", ["fn_plugins_extra_gamma"])
+            elif form == "from ns.sub import mod":
+                add("main", "f", 0, "plugins.extra", ["gamma"])
+                add("plugins.alpha", "f", 0, "plugins.extra", ["utils", "gamma"])
+            elif form == "from . import mod":
+                add("plugins.alpha", "f", 1, "", ["beta"])
+                add("plugins.extra.gamma", "f", 1, "", ["utils"])
+                add("core.alpha", "f", 1, "", ["utils"])
+            elif form == "from .. import mod":
+                add("plugins.extra.gamma", "f", 2, "", ["alpha"])
+                add("plugins.extra.utils", "f", 2, "", ["utils", "beta"])
+            elif form == "from .mod import f":
+                add("plugins.beta", "f", 1, "alpha", ["fn_plugins_alpha"])
+                add("plugins.extra.utils", "f", 1, "gamma", ["fn_plugins_extra_gamma"])
+            elif form == "from ..mod import f":
+                add("plugins.extra.utils", "f", 2, "beta", ["fn_plugins_beta"])
+                add("core.plug.delta", "f", 2, "utils", ["fn_core_utils"])
+            elif form == "from . import sub-package":
+                if not subreg:
+                    continue        # a namespace package has no module of its own: nothing to depend on
+                add("plugins.alpha", "f", 1, "", ["extra"])
+                add("main", "f", 0, "plugins", ["extra"])
+            elif form == "from .sub import mod":
+                add("plugins.alpha", "f", 1, "extra", ["gamma"])
+                add("core.utils", "f", 1, "plug", ["delta"])
+            elif form == "from pkg.nsdir import mod":
+                add("main", "f", 0, "core.plug", ["alpha"])
+                add("plugins.utils", "f", 0, "core.plug", ["delta", "alpha"])
+            elif form == "from . import nsdir-mod":
+                add("core.plug.delta", "f", 1, "", ["alpha"])
+                add("core.plug.alpha", "f", 2, "", ["alpha", "utils"])
+            out.append(L)
+    return out
 
 
 def stmt_text(st):
@@ -280,6 +383,9 @@ def run(tier, seed, replay=None):
     nlay = (60 if tier == "quick" else 600) * (1 if ps.ok else 4)
     hist = {"layouts": 0, "modules": 0, "statements": 0, "by_form": {}, "cpython_checked_modules": 0, "metric_rows": 0, "edges_expected": 0}
     layouts = [gen_layout(rng, reuse_names=(i % 4 != 3)) for i in range(nlay)]
+    # namespace packages, systematically: every import form x every kind of importer (same specification, same CPython validation, same sandwich)
+    layouts += ns_layouts()
+    hist.update({"namespace_layouts": 0, "namespace_packages": 0, "namespace_modules": 0, "namespace_statements": 0, "namespace_edges_expected": 0, "namespace_systematic": {}})
     tmp = tempfile.mkdtemp(prefix="pv_c12_")
     nontrivial = set()
     try:
@@ -339,14 +445,28 @@ def run(tier, seed, replay=None):
                 res.violation("C12: modules of the graph are %s, the project's modules are %s" % (sorted(matrix), sorted(L.mods)),
                               {"signature": {"kind": "module-set"}, "files": files})
                 continue
+            if L.ns:
+                hist["namespace_layouts"] += 1
+                hist["namespace_packages"] += len(L.ns)
+            if L.tag:
+                hist["namespace_systematic"][L.tag] = hist["namespace_systematic"].get(L.tag, 0) + 1
             for A, d in L.mods.items():
                 hist["modules"] += 1
                 hist["statements"] += len(d["stmts"])
+                in_ns = lambda m: any(m.startswith(q + ".") for q in L.ns)
+                if in_ns(A):
+                    hist["namespace_modules"] += 1
+                for st in d["stmts"]:
+                    form = "%s/level%d/%s" % ("import" if st["kind"] == "p" else "from", st["level"], "name" if st["names"] else "module")
+                    hist["by_form"][form] = hist["by_form"].get(form, 0) + 1
+                    if st["level"] == 0 and (st["module"] in L.ns or in_ns(st["module"])) or st["level"] > 0 and in_ns(A):
+                        hist["namespace_statements"] += 1
                 got = set(b for b, on in (matrix.get(A) or {}).items() if on)
                 if (li, A, "all") not in spec:
                     continue
                 req, alw = spec[(li, A, "all")]
                 hist["edges_expected"] += len(req)
+                hist["namespace_edges_expected"] += sum(1 for t in req if in_ns(t))
                 if req:
                     nontrivial.add((li, A))
                 missing, extra = req - got, got - alw
@@ -370,7 +490,7 @@ def run(tier, seed, replay=None):
                 if k:
                     res.known_finding(k, "(%s)" % what[:300])
                 else:
-                    res.violation(what, {"signature": sig, "module": A, "files": files, "cells": sorted(cells)})
+                    res.violation(what, {"signature": sig, "module": A, "files": files, "cells": sorted(cells), "namespace_packages": sorted(L.ns), "systematic": L.tag})
             # ---- other files / file order must not matter ---------------------------------------------------------------------------
             if li % 3 == 0:
                 flist = sorted((os.path.join("proj", L.path(m)) for m in L.mods), reverse=True)
@@ -515,7 +635,11 @@ def run(tier, seed, replay=None):
     res.coverage.update({
         "evaluations": hist["modules"] + hist["metric_rows"],
         "distinct_nontrivial": len(nontrivial),
-        "rule": "generated layouts: 1-3 top-level modules, 1-3 packages (optionally with a sub-package), module basenames re-used across packages in 3 of 4 layouts, __init__ "
+        "rule": "generated layouts: 1-3 top-level modules, 1-3 packages (optionally with a sub-package), in about 7 of 10 layouts also PEP 420 namespace packages (directories without "
+                "__init__.py, at top level or inside a regular package, optionally with a nested namespace or regular package) plus the systematic namespace layouts (one import form "
+                "each: import ns.mod, from ns import mod, from ns.mod import f, from . import mod, from .. import mod, from .mod / ..mod import f, ... x nested directory namespace / "
+                "regular x importer at top level / in a regular package / in the namespace package / in the nested package); "
+                "module basenames re-used across packages in 3 of 4 layouts, __init__ "
                 "re-exports; 0-3 import statements per module over 12 forms (import, import as, from pkg import submodule, from mod import name, from pkg import re-exported name, "
                 "relative sibling / parent by dots, stdlib) x 16 placements (top level, function, nested function, try/else/except/finally, if/else, class body, with, for, "
                 "TYPE_CHECKING, typing.TYPE_CHECKING, else of TYPE_CHECKING); non-trivial = module with at least one required edge",
